@@ -306,6 +306,12 @@ func confirmCrash(prop, tier string, seed uint64, p *part, idx int, first *worke
 				return l, nil
 			}
 		}
+		if strings.Contains(first.stderr, "out of memory") || strings.Contains(first.stderr, "cannot allocate memory") {
+			// the worker ran out of its address-space allowance after many large cases and the case
+			// at hand is fine on its own: the environment, not the code under test. Carry on.
+			fmt.Fprintf(os.Stderr, "note: a worker of part %s ran out of memory at index %d; the index runs clean alone, the worker is restarted after it\n", p.Name, idx)
+			return nil, nil
+		}
 		return nil, fmt.Errorf("worker died at %s index %d (%s) but the index runs clean alone: not confirmed", p.Name, idx, tail(first.stderr, 1500))
 	}
 	kind, msg := crashKind(wo)
